@@ -20,6 +20,26 @@ def lemmas():
     for k, v in doc.items():
         yield 'table:%r' % k, V.get(k) == v, 'special_tokens[%r] == %r' % (
             k, V.get(k))
+    # "every other character is copied unchanged": a table key outside the
+    # documented list must start with a LaTeX-active character, otherwise
+    # plain prose (no active character) would be rewritten
+    active = set('\\{}$&#^_~%')
+    extra = sorted(k for k in V if k not in doc and
+                   (not k or k[0] not in active))
+    shown = ''
+    if extra:
+        # failing inputs on the real code: prose around the offending key
+        import importlib
+        t2t = importlib.import_module('yalafi.tex2txt')
+        for k in extra[:3]:
+            src = 'A' + k + 'B'
+            try:
+                plain, _ = t2t.tex2txt(src, t2t.Options())
+            except Exception as e:      # noqa
+                plain = 'exception %r' % (e,)
+            shown += '; tex2txt(%r) -> %r' % (src, plain)
+    yield ('table:undocumented-keys-start-with-active-char', not extra,
+           'keys rewriting plain prose: %r%s' % (extra, shown))
     yield ('table:len(value)<=len(key)',
            all(len(v) <= len(k) for k, v in V.items()), '')
     yield ('table:long-values-equal-key',
